@@ -26,6 +26,15 @@ func MakeUserFriendlyError(err error, duration time.Duration, errorContext strin
 		return nil
 	}
 
+	// A dial that timed out also satisfies context.DeadlineExceeded, but it is not a server
+	// timeout: nothing reached the backend. Keep the cause in the chain so the retry logic
+	// recognises a connection-level failure and can move on to the next endpoint.
+	var dialErr *net.OpError
+	if errors.As(err, &dialErr) && dialErr.Op == "dial" && dialErr.Timeout() {
+		return fmt.Errorf("connection timeout after %.1fs - unable to connect to LLM backend at %s (check backend availability): %w",
+			duration.Seconds(), dialErr.Addr, err)
+	}
+
 	switch {
 	case errors.Is(err, context.Canceled):
 		// Common client timeout pattern (curl default, browser timeouts, etc.)
